@@ -74,6 +74,7 @@ type Node struct {
 	W    *World
 	Path string
 	Bolt *bolt.DB
+	DB   *dbutil.DB
 	V    *visor.Visor
 }
 
@@ -101,7 +102,8 @@ func (w *World) Open(path string, publisher bool) (*Node, error) {
 		return nil, err
 	}
 	bdb.NoSync = true // no crash model here (C08 owns that); keeps thousands of commits fast
-	v, err := visor.New(w.config(publisher), dbutil.WrapDB(bdb), nil)
+	wdb := dbutil.WrapDB(bdb)
+	v, err := visor.New(w.config(publisher), wdb, nil)
 	if err != nil {
 		bdb.Close()
 		return nil, fmt.Errorf("visor.New: %v", err)
@@ -110,7 +112,7 @@ func (w *World) Open(path string, publisher bool) (*Node, error) {
 		bdb.Close()
 		return nil, fmt.Errorf("visor.Init: %v", err)
 	}
-	n := &Node{W: w, Path: path, Bolt: bdb, V: v}
+	n := &Node{W: w, Path: path, Bolt: bdb, DB: wdb, V: v}
 	if publisher && w.GenSig == (cipher.Sig{}) {
 		gb, err := v.GetSignedBlockBySeq(0)
 		if err != nil || gb == nil {
